@@ -112,6 +112,8 @@ def main(argv=None):
     prop_id = a.prop.upper()
     seed = int(os.environ.get("VERIF_SEED", "0") or 0)
 
+    import logging
+    logging.getLogger("pyhf").setLevel(logging.CRITICAL)
     import pyhf
     if not pyhf.__file__.startswith("/repo/src"):
         print(f"HARNESS-ERROR pyhf imported from {pyhf.__file__}, expected /repo/src")
